@@ -1,7 +1,7 @@
 (* Num/C14Model.v — what the C14 correspondence run observes (model side) and the executable statement of the
    property evaluated on the implementation's observation (the judge).  One [model_*] / [judge_*] pair per case
    kind of harness/src/bin/c14.rs.  No proofs in this file (Num/C14ModelProofs.v: the judge accepts the model). *)
-From CSL Require Import Base.Prelude Base.U64 Cbor.Head Num.Decimal Num.U64 Num.IntRange Num.BigIntCbor Num.Value.
+From CSL Require Import Base.Prelude Base.U64 Cbor.Head Num.Decimal Num.U64 Num.IntRange Num.BigIntCbor Num.Value Num.Mint.
 Local Open Scope N_scope.
 
 (* classes: 0 = unclassified; the others name a (repaired or known) defect class, see known_findings.d/C14.json *)
@@ -14,6 +14,7 @@ Definition cls_mint_overflow : N := 4.     (* C14-mint-builder-overflow *)
 Definition cls_meta_key : N := 5.          (* C14-meta-key-unchecked-int *)
 Definition cls_from_str_range : N := 6.    (* C14-int-from-str-range *)
 Definition cls_as_negative : N := 7.       (* C14-int-as-negative-truncates *)
+Definition cls_mint_dup : N := 8.          (* C14-mint-duplicate-policy-dropped *)
 
 Definition check (b : bool) : verdict := if b then Holds else Fails cls_none.
 
@@ -51,13 +52,7 @@ Definition judge_bncmp (a b : N) (o : Z * bool * N) : verdict :=
   let '(c, lt, mx) := o in
   check (Z.eqb c (if a <? b then (-1)%Z else if a =? b then 0%Z else 1%Z) && Bool.eqb lt (a <? b) && (mx =? N.max a b)).
 
-(* from_str on arbitrary text *)
-Fixpoint strip_zeros (s : text) : text :=
-  match s with c :: r => if c =? ch_zero then strip_zeros r else s | [] => [] end.
-(* the canonical decimal text denoted by an accepted unsigned literal: no sign, no leading zeros, "0" for zero *)
-Definition canon_unsigned (s : text) : text :=
-  let body := match s with c :: r => if c =? ch_plus then r else s | [] => [] end in
-  match strip_zeros body with [] => [ch_zero] | t => t end.
+(* from_str on arbitrary text (canon_unsigned: Num/Decimal.v) *)
 Definition model_bnstr (s : text) : result N := bn_from_str s.
 Definition judge_bnstr (s : text) (r : result N) : verdict :=
   match r with
@@ -128,11 +123,19 @@ Definition judge_int_obs (o : int_obs) : verdict :=
     | _ => Fails cls_none
     end.
 
+(* a literal that was accepted denotes the Int that came out: its canonical text is the Int's to_str *)
+Definition int_src_text_ok (src : int_src) (z : Z) : bool :=
+  match src with
+  | SFromStr s | SMetaKey s => text_eqb (print_Z z) (canon_signed s)
+  | _ => true
+  end.
+
 Definition judge_int (src : int_src) (o : option int_obs) : verdict :=
   match o with
   | None => match int_src_exact src with Some _ => Fails cls_none | None => Holds end   (* explicit error *)
   | Some o =>
       if match int_src_value src with Some z => negb (io_val o =? z)%Z | None => false end then Fails cls_none
+      else if negb (int_src_text_ok src (io_val o)) then Fails cls_none
       else
         match judge_int_obs o, src with
         | Fails c, SMetaKey _ => if int_in_range (io_val o) then Fails c else Fails cls_meta_key
@@ -140,22 +143,49 @@ Definition judge_int (src : int_src) (o : option int_obs) : verdict :=
         end
   end.
 
-(* MintBuilder: flags of the calls, then build() and, for the keys 0..3, the quantity and its CBOR *)
+(* MintBuilder: flags of the calls, then build() and, for the keys 0..3, the quantity, its CBOR and the quantities
+   build().as_positive_multiasset() / as_negative_multiasset() report for it (what the transaction builder balances with) *)
 Definition mint_keys : list N := [0; 1; 2; 3].
-Definition model_mint (ops : list mint_op) : list bool * result (list (option (Z * bytes))) :=
+Definition mint_obs_entry : Type := Z * bytes * N * N.
+Definition orN (o : option N) : N := match o with Some q => q | None => 0 end.
+Definition mint_observe_entry (z : Z) : mint_obs_entry :=
+  (z, int_serialize z, orN (int_as_positive z), orN (int_as_negative z)).
+Definition model_mint (ops : list mint_op) : list bool * result (list (option mint_obs_entry)) :=
   let '(s, oks) := mint_run mint_step [] ops in
   (oks, let* s' := mint_build s in
-        Ok (map (fun k => option_map (fun z => (z, int_serialize z)) (ms_get k s')) mint_keys)).
-Definition judge_mint (ops : list mint_op) (o : list bool * result (list (option (Z * bytes)))) : verdict :=
+        Ok (map (fun k => option_map mint_observe_entry (ms_get k s')) mint_keys)).
+(* every quantity the builder releases is a non-zero Int within -(2^64-1)..2^64-1 (the builder's documented range: a burn is
+   balanced as a u64 quantity), survives CBOR, and is reported exactly on the mint / burn side *)
+Definition judge_mint_entry (e : option mint_obs_entry) : bool :=
+  match e with
+  | Some (z, bs, pos, neg) =>
+      ((mint_min <=? z) && (z <=? int_max))%Z && negb (z =? 0)%Z && resZ_eqb (int_from_bytes bs) (Ok z)
+      && (Z.of_N pos =? Z.max z 0)%Z && (Z.of_N neg =? Z.max (- z) 0)%Z
+  | None => true
+  end.
+Definition judge_mint (ops : list mint_op) (o : list bool * result (list (option mint_obs_entry))) : verdict :=
   match snd o with
-  | Ok l =>
-      if forallb (fun e => match e with
-                           | Some (z, bs) => int_in_range z && resZ_eqb (int_from_bytes bs) (Ok z) && negb (z =? 0)%Z
-                           | None => true end) l
-      then Holds else Fails cls_mint_overflow
+  | Ok l => if forallb judge_mint_entry l then Holds else Fails cls_mint_overflow
   | Err => Holds
   | _ => Fails cls_none
   end.
+
+(* Mint::as_positive_multiasset / as_negative_multiasset of a hand-made Mint *)
+Definition model_mintv (m : mint) : multiasset * multiasset :=
+  (mint_as_positive_multiasset m, mint_as_negative_multiasset m).
+Definition mint_keys_of (m : mint) : list (bytes * bytes) :=
+  flat_map (fun e : bytes * mint_assets => map (fun nz : bytes * Z => (fst e, fst nz)) (snd e)) m.
+Definition ma_keys_of (r : multiasset) : list (bytes * bytes) :=
+  map (fun e => match e with (p, n, _) => (p, n) end) (ma_entries r).
+Definition mintv_side_ok (is_pos : bool) (m : mint) (r : multiasset) : bool :=
+  ma_wfb r && forallb (fun k => (Z.of_N (ma_qty r (fst k) (snd k)) =? mint_spec_qty is_pos m (fst k) (snd k))%Z)
+                      (mint_keys_of m ++ ma_keys_of r).
+Definition judge_mintv (m : mint) (o : multiasset * multiasset) : verdict :=
+  if negb (mint_wfb m) then NA
+  else if mintv_side_ok true m (fst o) && mintv_side_ok false m (snd o) then Holds
+  else if mint_has_min m then Fails cls_as_negative
+  else if has_dup_policy m then Fails cls_mint_dup
+  else Fails cls_none.
 
 (* ------------------------------------------------------------------------------------------------ *)
 (* BigInt *)
@@ -199,7 +229,7 @@ Definition judge_bibytes (bs : bytes) (r : result (Z * bytes * result Z)) : verd
 Definition model_bistr (s : text) : result Z := bigint_from_str s.
 Definition judge_bistr (s : text) (r : result Z) : verdict :=
   match r with
-  | Ok z => check (resZ_eqb (bigint_from_str (bigint_to_str z)) (Ok z))
+  | Ok z => check (resZ_eqb (bigint_from_str (bigint_to_str z)) (Ok z) && text_eqb (print_Z z) (canon_bigint s))
   | Err => Holds
   | _ => Fails cls_none
   end.
